@@ -13,7 +13,7 @@ CONSTANTS
   CondTypes = {"absent", "string", "int", "float", "bool"}
   RuleKinds = {"int", "dur", "float", "list"}
   CondScopes = {"span", "trace"}
-  FieldVals = {"fv-str", "fv-emptystr", "fv-int", "fv-hugenum", "fv-float", "fv-nan", "fv-bool", "fv-nil", "fv-array", "fv-nestedarray", "fv-emptyarray", "fv-map", "fv-absent"}
+  FieldVals = {"fv-str", "fv-int", "fv-nil", "fv-array", "fv-map", "fv-absent"}
   Faithful = TRUE
 INVARIANTS TypeOK OnlyListed
 ACTION_CONSTRAINT Dump
